@@ -300,10 +300,8 @@ fn build_variant(name: String, vs: &VariantSpec, menu: &[Ty]) -> Variant {
     }
     let mut hist = vs.hist.clone();
     if shape == Shape::Tuple {
-        // positional fields cannot carry #[transient]; positional names follow the macro: field0, field1, ...
-        for f in hist.init.iter_mut() {
-            f.transient = false;
-        }
+        // positional fields may carry #[transient(..)] too; positional names follow the macro (field0, field1, ...
+        // numbered over ALL declared fields, transient ones included)
         for s in hist.steps.iter_mut() {
             if s.kind == StepKind::MakeTransient {
                 s.kind = StepKind::Remove;
